@@ -397,6 +397,15 @@ def main(argv):
         ck.dist('validator-consumer-histories')
     except Exception as e:
         ck.oracle_failures.append({'signature': 'consumer/exception', 'input': {'class': 'EventValidator', 'method': 'is_valid'}, 'observed': repr(e)})
+    # consumer: the transcoder mediator writes an ontology update whenever the counter moved, also for changes made after a refused
+    # record or after the last record (written by close()); scenario and oracle shared with C17
+    try:
+        import c17
+        for _ in range(ck.budget(40, 400)):
+            c17.recovery_scenario(ck, ck.rng)
+        ck.dist('mediator-consumer-histories')
+    except Exception as e:
+        ck.oracle_failures.append({'signature': 'consumer/exception', 'input': {'class': 'TranscoderMediator', 'method': 'close'}, 'observed': repr(e)})
     ck.cov['traces_validated_against_impl'] = ck.cov['evaluations']
     ck.cov['rule'] = ('every public mutator of the 10 ontology classes (enumerated by introspection, %d methods) called with curated arguments on a freshly '
                       'loaded populated ontology, on elements of the ontology itself and on elements adopted from another ontology; random mutator '
